@@ -338,6 +338,10 @@ def table_set_file(draw, min_particles=3, max_particles=8, max_lines=4, max_daug
                 params = [{"t": "num", "v": draw(N.num_literal())}] if draw(st.booleans()) else []
                 lines.append({"bf": draw(N.bf_literal()), "d": ds, "photos": draw(st.integers(0, 3)) == 0,
                               "model": draw(st.sampled_from(N.MODELS[:20])), "alias": False, "params": params})
+        if lines and draw(st.sampled_from((False,) * 5 + (True,))):
+            # two look-alike lines (same bf, daughters, model) in one table are two decay lines
+            k = draw(st.integers(0, len(lines) - 1))
+            lines.insert(draw(st.integers(0, len(lines))), {**lines[k], "d": list(lines[k]["d"]), "params": [dict(p) for p in lines[k]["params"]]})
         stmts.append({"k": "decay", "m": m, "lines": lines})
     stmts = list(draw(st.permutations(stmts)))
     f = {"stmts": stmts, "layout": [], "crlf": False, "end": False}
